@@ -199,19 +199,30 @@ func DynTwoScope(yield func(u *Universe)) {
 	for _, c := range combos {
 		for kinds := 0; kinds < 81; kinds++ {
 			ka, kb, kf, kr := kinds%3, kinds/3%3, kinds/9%3, kinds/27%3
-			if kf == 2 {
-				continue // "#n" would dangle in f
-			}
-			for placement := 0; placement < 2; placement++ {
+			for pl := 0; pl < 4; pl++ {
+				placement, fin := pl%2, "#n"
+				if pl >= 2 {
+					fin = "x.json#n" // the final reference starts in a resource that is never entered
+				}
+				if kf == 2 && fin == "#n" {
+					continue // "#n" would dangle in f
+				}
 				a := `{"$id":"http://h/a.json","$ref":"f.json","$defs":{"m":{` + anchorKinds[ka] + `"const":1}}}`
 				b := `{"$id":"http://h/b.json","$ref":"f.json","$defs":{"m":{` + anchorKinds[kb] + `"const":2}}}`
-				f := `{"$id":"http://h/f.json","$dynamicRef":"#n","$defs":{"m":{` + anchorKinds[kf] + `"const":3}}}`
+				f := `{"$id":"http://h/f.json","$dynamicRef":"` + fin + `","$defs":{"m":{` + anchorKinds[kf] + `"const":3}}}`
+				x := `{"$id":"http://h/x.json","$defs":{"m":{"$dynamicAnchor":"n","const":9}}}`
 				docs := map[string]string{}
 				defs := `"m":{` + anchorKinds[kr] + `"const":4}`
 				if placement == 0 {
 					defs += `,"a":` + a + `,"b":` + b + `,"f":` + f
+					if fin != "#n" {
+						defs += `,"x":` + x
+					}
 				} else {
 					docs["http://h/a.json"], docs["http://h/b.json"], docs["http://h/f.json"] = a, b, f
+					if fin != "#n" {
+						docs["http://h/x.json"] = x
+					}
 				}
 				root := `{"$id":"http://h/root.json",` + c.tmpl + `,"$defs":{` + defs + `}}`
 				u := &Universe{Root: root, Base: "http://h/root.json", Docs: docs, Kind: "two-scope " + c.name}
